@@ -380,6 +380,11 @@ Proof.
   apply (pick_best_le _ _ _ _ E).
 Qed.
 
+Lemma best_roster_spec o elig r :
+  best_roster score o elig = Some r ->
+  In r (all_rosters o elig) /\ forall x, In x (all_rosters o elig) -> score r <= score x.
+Proof. intros H. split; [apply best_roster_in; exact H|apply best_roster_minimal; exact H]. Qed.
+
 (* ================================================================= the loop *)
 
 Lemma plan_loop_eq fuel o budget elig n :
@@ -715,3 +720,667 @@ Proof.
 Qed.
 
 End Theorems.
+
+(* ================================================================= applying a plan *)
+
+Lemma NoDup_app_inv {A} (l1 l2 : list A) :
+  NoDup (l1 ++ l2) -> NoDup l1 /\ NoDup l2 /\ (forall a, In a l1 -> ~ In a l2).
+Proof.
+  induction l1 as [|x l1 IH]; cbn [app]; intros H.
+  - split; [constructor|]. split; [exact H|]. intros a [].
+  - inversion H as [|? ? Hnot Hnd]; subst. destruct (IH Hnd) as [H1 [H2 H3]].
+    split; [constructor; [intros Hin; apply Hnot; apply in_or_app; left; exact Hin|exact H1]|].
+    split; [exact H2|]. intros a [<-|Ha]; [intros Hin; apply Hnot; apply in_or_app; right; exact Hin|apply H3; exact Ha].
+Qed.
+
+(* weight of a segment in the progress measure: 1, plus 1 when it has deletions *)
+Definition weight (s : seg) : Z := if has_deletes s then 2 else 1.
+Definition wsum (l : list seg) : Z := fold_right (fun s a => weight s + a) 0 l.
+
+Lemma measure_wsum l : measure l = wsum l.
+Proof.
+  unfold measure, wsum. induction l as [|s l IH]; [reflexivity|].
+  cbn [filter fold_right]. rewrite zlen_cons. unfold weight at 1.
+  destruct (has_deletes s); [rewrite zlen_cons|]; lia.
+Qed.
+Lemma wsum_app l1 l2 : wsum (l1 ++ l2) = wsum l1 + wsum l2.
+Proof. unfold wsum. induction l1 as [|a l1 IH]; cbn [fold_right app]; [lia|]. rewrite IH. lia. Qed.
+Lemma weight_pos s : 1 <= weight s <= 2.
+Proof. unfold weight. destruct (has_deletes s); lia. Qed.
+Lemma wsum_nonneg l : 0 <= wsum l.
+Proof. unfold wsum. induction l as [|a l IH]; cbn [fold_right]; [lia|]. pose proof (weight_pos a). lia. Qed.
+Lemma wsum_ge_len l : zlen l <= wsum l.
+Proof. unfold wsum. induction l as [|a l IH]; cbn [fold_right]; [unfold zlen; cbn; lia|]. rewrite zlen_cons. pose proof (weight_pos a). lia. Qed.
+Lemma wsum_perm l l' : Permutation l l' -> wsum l = wsum l'.
+Proof. unfold wsum. induction 1; cbn [fold_right]; lia. Qed.
+Lemma wsum_filter_le p l : wsum (filter p l) <= wsum l.
+Proof. unfold wsum. induction l as [|a l IH]; cbn [filter fold_right]; [lia|]. pose proof (weight_pos a). destruct (p a); cbn [fold_right]; lia. Qed.
+Lemma wsum_filter_split p l : wsum (filter p l) + wsum (filter (fun s => negb (p s)) l) = wsum l.
+Proof. unfold wsum. induction l as [|a l IH]; cbn [filter fold_right]; [lia|]. destruct (p a); cbn [negb fold_right]; lia. Qed.
+
+(* removing a task whose segments are segments of the state (distinct ids) removes its weight *)
+Lemma wsum_remove_segs segs t :
+  NoDup (ids segs) -> NoDup (ids t) -> incl t segs ->
+  wsum (remove_segs segs t) = wsum segs - wsum t.
+Proof.
+  intros Hnd Hndt Hincl.
+  pose proof (wsum_filter_split (fun s => in_ids s t) segs) as Hsplit.
+  assert (Hperm : Permutation (filter (fun s => in_ids s t) segs) t).
+  { apply NoDup_Permutation.
+    - assert (Hn : NoDup segs) by (eapply NoDup_map_inv; exact Hnd).
+      eapply subseq_NoDup; [apply subseq_filter|exact Hn].
+    - eapply NoDup_map_inv; exact Hndt.
+    - intros s. rewrite filter_In, in_ids_true. split.
+      + intros [Hs Hid]. unfold ids in Hid. apply in_map_iff in Hid. destruct Hid as [r [E Hr]].
+        assert (r = s); [|subst; exact Hr].
+        apply (NoDup_ids_inj segs); try assumption. apply Hincl. exact Hr.
+      + intros Hs. split; [apply Hincl; exact Hs|apply in_map; exact Hs]. }
+  rewrite (wsum_perm _ _ Hperm) in Hsplit. unfold remove_segs. lia.
+Qed.
+
+Definition wf_state (st : state) : Prop :=
+  NoDup (ids (fst st)) /\ Forall (fun s => seg_id s <= snd st) (fst st).
+
+Lemma apply_task_nonempty segs next t :
+  t <> [] ->
+  apply_task (segs, next) t =
+  let kept := filter (fun s => negb (seg_live s =? 0)) t in
+  let rest := filter (fun s => 0 <? seg_live s) (remove_segs segs t) in
+  match kept with
+  | [] => (rest, next + 1)
+  | _ => (rest ++ [mkseg (next + 1) (sum_live kept) (sum_live kept)], next + 1)
+  end.
+Proof. intros H. destruct t; [contradiction|reflexivity]. Qed.
+
+Lemma has_deletes_new i v : has_deletes (mkseg i v v) = false.
+Proof. unfold has_deletes. cbn [seg_full seg_live]. rewrite Z.eqb_refl. reflexivity. Qed.
+
+Lemma apply_task_wf st t : wf_state st -> wf_state (apply_task st t).
+Proof.
+  destruct st as [segs next]. unfold wf_state. intros [Hnd Hle]. cbn [fst snd] in *.
+  destruct t as [|x xs]; [split; assumption|]. rewrite apply_task_nonempty by discriminate. cbv zeta.
+  set (t := x :: xs). set (rest := filter _ (remove_segs segs t)).
+  assert (Hsub : subseq rest segs) by (eapply subseq_trans; [apply subseq_filter|apply remove_segs_subseq]).
+  assert (Hrnd : NoDup (ids rest)) by (eapply NoDup_ids_subseq; eassumption).
+  assert (Hrle : Forall (fun s => seg_id s <= next + 1) rest).
+  { eapply subseq_Forall; [exact Hsub|]. eapply Forall_impl; [|exact Hle]. intros; cbn beta in *; lia. }
+  destruct (filter _ t) as [|k ks]; cbn [fst snd]; [split; assumption|].
+  split.
+  - rewrite ids_app. apply NoDup_app_intro; [exact Hrnd|constructor; [intros []|constructor]|].
+    intros i Hi [<-|[]]. cbn [seg_id] in Hi. unfold ids in Hi. apply in_map_iff in Hi. destruct Hi as [s [E Hs]].
+    apply (subseq_incl _ _ Hsub) in Hs. rewrite Forall_forall in Hle. specialize (Hle s Hs). cbn beta in Hle. lia.
+  - apply Forall_app. split; [exact Hrle|]. constructor; [cbn [seg_id]; lia|constructor].
+Qed.
+
+(* one task: the measure never grows, and drops unless the task is a no-op *)
+Lemma apply_task_measure segs next t :
+  NoDup (ids segs) -> t <> [] -> NoDup (ids t) -> incl t segs ->
+  wsum (fst (apply_task (segs, next) t)) <= wsum segs - (if noop_task t then 0 else 1).
+Proof.
+  intros Hnd Hne Hndt Hincl. rewrite apply_task_nonempty by exact Hne. cbv zeta.
+  pose proof (wsum_remove_segs segs t Hnd Hndt Hincl) as Hrem.
+  pose proof (wsum_filter_le (fun s => 0 <? seg_live s) (remove_segs segs t)) as Hfil.
+  assert (Hw : (if noop_task t then 1 else 2) <= wsum t \/
+               (noop_task t = false /\ wsum t = 1 /\ filter (fun s => negb (seg_live s =? 0)) t = [])).
+  { destruct t as [|s [|s' t']]; [contradiction| |].
+    - cbn [noop_task]. unfold wsum. cbn [fold_right]. unfold weight, has_deletes.
+      destruct (seg_full s =? seg_live s) eqn:E1; cbn [negb andb].
+      + destruct (seg_live s =? 0) eqn:E2; cbn [negb]; [right|left; lia].
+        split; [reflexivity|]. split; [lia|]. cbn [filter]. rewrite E2. reflexivity.
+      + left. lia.
+    - left. cbn [noop_task]. unfold wsum. cbn [fold_right]. pose proof (weight_pos s). pose proof (weight_pos s').
+      pose proof (wsum_nonneg t'). unfold wsum in *. lia. }
+  destruct (filter (fun s => negb (seg_live s =? 0)) t) as [|k ks] eqn:Ek; cbn [fst].
+  - destruct Hw as [Hw|[Hn [Hw _]]]; [destruct (noop_task t); lia|rewrite Hn; lia].
+  - rewrite wsum_app. unfold wsum at 2. cbn [fold_right]. unfold weight. rewrite has_deletes_new.
+    destruct Hw as [Hw|[_ [_ Hk]]]; [destruct (noop_task t); lia|discriminate].
+Qed.
+
+(* the tasks of a plan stay applicable while the earlier ones are executed: they are disjoint,
+   inside the state, and every task after the first holds only segments with live > 0 (the
+   introducer drops the other segments whose live size is 0) *)
+Definition applicable (segs : list seg) (ts : list (list seg)) : Prop :=
+  NoDup (ids (concat ts)) /\ incl (concat ts) segs /\ Forall (fun t => t <> []) ts /\
+  Forall (fun t => Forall (fun s => 0 < seg_live s) t) (tl ts).
+
+Lemma apply_plan_measure : forall ts segs next,
+  wf_state (segs, next) -> applicable segs ts ->
+  wf_state (apply_plan (segs, next) ts) /\
+  wsum (fst (apply_plan (segs, next) ts)) <= wsum segs - zlen (filter (fun t => negb (noop_task t)) ts).
+Proof.
+  induction ts as [|t ts IH]; intros segs next Hwf [Hnd [Hincl [Hne Hpos]]].
+  - cbn [apply_plan fold_left filter fst]. rewrite zlen_nil. split; [exact Hwf|lia].
+  - cbn [apply_plan fold_left]. fold (apply_plan (apply_task (segs, next) t) ts).
+    cbn [concat] in Hnd, Hincl. rewrite ids_app in Hnd.
+    destruct (NoDup_app_inv _ _ Hnd) as [Hndt [Hndr Hdisj]].
+    assert (Hinclt : incl t segs) by (intros x Hx; apply Hincl; apply in_or_app; left; exact Hx).
+    inversion Hne as [|? ? Hnet Hne']; subst.
+    pose proof (apply_task_wf (segs, next) t Hwf) as Hwf'.
+    pose proof (apply_task_measure segs next t (proj1 Hwf) Hnet Hndt Hinclt) as Hm.
+    destruct (apply_task (segs, next) t) as [segs' next'] eqn:Eat. cbn [fst] in Hm.
+    assert (Happ : applicable segs' ts).
+    { split; [exact Hndr|]. split; [|split; [exact Hne'|]].
+      - (* the later tasks survive: not removed (disjoint ids), live > 0 (not dropped) *)
+        intros s Hs. cbn [tl] in Hpos.
+        assert (Hlive : 0 < seg_live s).
+        { apply in_concat in Hs. destruct Hs as [t' [Ht' Hst']]. rewrite Forall_forall in Hpos.
+          specialize (Hpos t' Ht'). rewrite Forall_forall in Hpos. apply Hpos. exact Hst'. }
+        assert (Hin : In s (filter (fun s => 0 <? seg_live s) (remove_segs segs t))).
+        { apply filter_In. split; [|lia]. apply remove_segs_In. split; [apply Hincl; apply in_or_app; right; exact Hs|].
+          intros Hid. apply (Hdisj (seg_id s) Hid). apply in_map. exact Hs. }
+        rewrite apply_task_nonempty in Eat by exact Hnet. cbv zeta in Eat.
+        destruct (filter (fun s0 => negb (seg_live s0 =? 0)) t); inversion Eat; subst; [exact Hin|apply in_or_app; left; exact Hin].
+      - cbn [tl] in Hpos. destruct ts as [|t2 ts2]; [constructor|]. cbn [tl]. inversion Hpos; assumption. }
+    destruct (IH segs' next' Hwf' Happ) as [Hwf'' Hm'].
+    split; [exact Hwf''|]. cbn [filter]. destruct (noop_task t); cbn [negb]; [|rewrite zlen_cons]; lia.
+Qed.
+
+Section Convergence.
+Variable score : list seg -> Z.
+
+(* the tasks returned by plan_with are applicable to the state they were planned on *)
+Lemma plan_applicable o segs ts :
+  NoDup (ids segs) -> plan_with score o segs = Ok (Some ts) -> applicable segs ts.
+Proof.
+  intros Hnd Hp.
+  assert (Hp' : plan score (Some o) segs = Ok (Some ts)) by exact Hp.
+  split; [apply (tasks_disjoint_all score (Some o) segs ts Hnd Hp')|].
+  split; [intros s Hs; apply in_concat in Hs; destruct Hs as [t [Ht Hst]]; eapply (tasks_subset_input_all score (Some o)); eassumption|].
+  split; [apply (tasks_nonempty_all score (Some o) segs ts Hp')|].
+  (* only the first task can be the empties task *)
+  destruct (plan_with_shape _ _ _ _ Hp) as [_ [b [_ [tasks0 [tlp [el' [Hs [Hl ->]]]]]]]].
+  destruct (loop_start_spec _ _ _ _ Hs) as [_ [Hpos [_ Ht0]]].
+  pose proof (plan_loop_rosters score _ _ _ _ _ _ Hl) as Hr.
+  assert (Hall : Forall (fun t => Forall (fun s => 0 < seg_live s) t) tlp).
+  { eapply Forall_impl; [|exact Hr]. intros t Ht. pose proof (is_roster_subseq _ _ _ Ht) as Hsub.
+    eapply Forall_impl; [|eapply subseq_Forall; [exact Hsub|exact Hpos]]. unfold small_pos. intros; lia. }
+  destruct Ht0 as [->|[-> _]]; cbn [app tl]; [|exact Hall].
+  destruct tlp as [|x xs]; [constructor|]. cbn [tl]. inversion Hall; assumption.
+Qed.
+
+(* apply_progress: executing a non-empty plan without a no-op task strictly lowers
+   #segments + #segments-with-deletions; with no-op tasks it never raises it *)
+Theorem apply_progress_all o segs next ts :
+  NoDup (ids segs) -> Forall (fun s => seg_id s <= next) segs ->
+  plan_with score o segs = Ok (Some ts) ->
+  measure (fst (apply_plan (segs, next) ts)) <= measure segs /\
+  (ts <> [] -> existsb noop_task ts = false -> measure (fst (apply_plan (segs, next) ts)) < measure segs) /\
+  wf_state (apply_plan (segs, next) ts).
+Proof.
+  intros Hnd Hle Hp. pose proof (plan_applicable o segs ts Hnd Hp) as Happ.
+  destruct (apply_plan_measure ts segs next (conj Hnd Hle) Happ) as [Hwf Hm].
+  rewrite !measure_wsum. pose proof (zlen_nonneg (filter (fun t => negb (noop_task t)) ts)) as Hz.
+  split; [lia|]. split; [|exact Hwf].
+  intros Hne Hno. destruct ts as [|t ts']; [contradiction|].
+  cbn [existsb] in Hno. apply orb_false_iff in Hno. destruct Hno as [Hn _].
+  cbn [filter] in Hm. rewrite Hn in Hm. cbn [negb] in Hm. rewrite zlen_cons in Hm.
+  pose proof (zlen_nonneg (filter (fun t => negb (noop_task t)) ts')). lia.
+Qed.
+
+(* at an empty plan the number of mergeable segments is within max(budget, 1) *)
+Lemma quiescent_bound o segs p :
+  sane_options o ->
+  plan_with score o segs = Ok p -> empty_plan p = true ->
+  exists b, budget_of o (sort_segs segs) = Ok b /\ zlen (eligibles o segs) <= Z.max 1 b.
+Proof.
+  intros Hsane Hp He. destruct (budget_of_ok o (sort_segs segs)) as [b Hb]. exists b. split; [exact Hb|].
+  assert (Hlen : zlen (eligibles o segs) <= zlen segs).
+  { unfold zlen. pose proof (subseq_length _ _ (eligibles_subseq o segs)). lia. }
+  destruct p as [[|t ts]|]; [|discriminate|].
+  - (* Some []: no empties task and the loop did not start *)
+    assert (Hp' : plan score (Some o) segs = Ok (Some [])) by exact Hp.
+    destruct (plan_postcondition_all score (Some o) segs [] Hsane Hp') as [b' [Hb' Hpost]].
+    cbn [effective] in Hb', Hpost. rewrite Hb in Hb'. inversion Hb'; subst b'.
+    cbv zeta in Hpost. cbn [concat] in Hpost. rewrite remove_segs_nil, zlen_nil in Hpost.
+    assert (Hel : zlen (eligibles o (sort_segs segs)) = zlen (eligibles o segs)).
+    { unfold zlen. f_equal. apply Permutation_length. unfold eligibles.
+      (* filter of a permutation *)
+      assert (Hf : forall l l', Permutation l l' -> Permutation (filter (eligible o) l) (filter (eligible o) l')).
+      { induction 1; cbn [filter].
+        - constructor.
+        - destruct (eligible o x); [apply perm_skip|]; assumption.
+        - destruct (eligible o x), (eligible o y); try apply Permutation_refl. apply perm_swap.
+        - eapply perm_trans; eassumption. }
+      apply Hf. apply sort_perm. }
+    rewrite <- Hel. destruct Hpost as [Hnil|Hle]; [rewrite Hnil, zlen_nil; lia|lia].
+  - apply plan_with_none in Hp. lia.
+Qed.
+
+(* convergence_partial: from any state, within #segments + #segments-with-deletions cycles the
+   merger either is handed a plan containing a no-op task, or reaches an empty plan, and there
+   the number of mergeable segments is at most max(budget, 1) *)
+Theorem convergence_partial_all o : sane_options o ->
+  forall (n : nat) segs next,
+  NoDup (ids segs) -> Forall (fun s => seg_id s <= next) segs ->
+  measure segs <= Z.of_nat n ->
+  (exists st', run_cycles n score o (segs, next) = NoopPlanned st') \/
+  (exists st' b, run_cycles n score o (segs, next) = Quiescent st' /\
+                 budget_of o (sort_segs (fst st')) = Ok b /\
+                 zlen (eligibles o (fst st')) <= Z.max 1 b /\
+                 measure (fst st') <= measure segs).
+Proof.
+  intros Hsane. induction n as [|n IH]; intros segs next Hnd Hle Hm.
+  - (* measure 0: no segments *)
+    assert (segs = []).
+    { destruct segs as [|s l]; [reflexivity|]. rewrite measure_wsum in Hm. pose proof (wsum_ge_len (s :: l)). rewrite zlen_cons in *. pose proof (zlen_nonneg l). lia. }
+    subst segs. right. exists ([], next). cbn [run_cycles fst]. rewrite plan_with_unfold. cbn.
+    destruct (quiescent_bound o [] None Hsane eq_refl eq_refl) as [b [Hb Hbound]].
+    exists b. split; [reflexivity|]. cbn [fst]. split; [exact Hb|]. split; [exact Hbound|lia].
+  - cbn [run_cycles fst].
+    destruct (plan_with_terminates score o segs) as [p Hp]. rewrite Hp.
+    destruct (empty_plan p) eqn:Ee.
+    + right. destruct (quiescent_bound o segs p Hsane Hp Ee) as [b [Hb Hbound]].
+      exists (segs, next), b. cbn [fst]. split; [reflexivity|]. split; [exact Hb|]. split; [exact Hbound|lia].
+    + destruct p as [ts|]; [|discriminate].
+      destruct (existsb noop_task ts) eqn:En; [left; eexists; reflexivity|].
+      destruct (apply_progress_all o segs next ts Hnd Hle Hp) as [_ [Hlt Hwf]].
+      assert (Hne : ts <> []) by (destruct ts; [discriminate|discriminate]).
+      specialize (Hlt Hne En).
+      destruct (apply_plan (segs, next) ts) as [segs' next'] eqn:Ea. cbn [fst] in *.
+      destruct Hwf as [Hnd' Hle']. cbn [fst snd] in *.
+      destruct (IH segs' next' Hnd' Hle' ltac:(lia)) as [[st' Hr]|[st' [b [Hr [Hb [Hbound Hmm]]]]]].
+      * left. exists st'. exact Hr.
+      * right. exists st', b. split; [exact Hr|]. split; [exact Hb|]. split; [exact Hbound|lia].
+Qed.
+
+End Convergence.
+
+(* ================================================================= renaming the ids
+   The planner and the execution of a plan commute with a shift of all ids (and of
+   nextSegmentID) when the score does not look at ids.  Used to iterate a concrete cycle. *)
+
+Definition shift (d : Z) (s : seg) : seg := mkseg (seg_id s + d) (seg_full s) (seg_live s).
+Definition sh (d : Z) (l : list seg) : list seg := map (shift d) l.
+
+Lemma filter_map_comm {A B} (f : A -> B) (p : B -> bool) (q : A -> bool) l :
+  (forall x, p (f x) = q x) -> filter p (map f l) = map f (filter q l).
+Proof.
+  intros H. induction l as [|a l IH]; cbn [map filter]; [reflexivity|].
+  rewrite H. destruct (q a); cbn [map]; rewrite IH; reflexivity.
+Qed.
+
+Lemma sh_len d l : zlen (sh d l) = zlen l.
+Proof. unfold zlen, sh. rewrite map_length. reflexivity. Qed.
+Lemma sh_length d l : length (sh d l) = length l.
+Proof. unfold sh. apply map_length. Qed.
+Lemma sh_sum_live d l : sum_live (sh d l) = sum_live l.
+Proof. unfold sum_live, sh. induction l as [|a l IH]; cbn [map fold_right]; [reflexivity|]. rewrite IH. reflexivity. Qed.
+Lemma sh_sizes d l : sizes (sh d l) = sizes l.
+Proof. unfold sizes, sh. rewrite map_map. reflexivity. Qed.
+
+Lemma seg_before_shift d a b : seg_before (shift d a) (shift d b) = seg_before a b.
+Proof. unfold seg_before, shift. cbn [seg_live seg_id]. destruct (negb (seg_live a =? seg_live b)); [reflexivity|]. lia. Qed.
+
+Lemma insert_shift d s l : insert_seg (shift d s) (sh d l) = sh d (insert_seg s l).
+Proof.
+  induction l as [|h t IH]; cbn [sh map insert_seg]; [reflexivity|].
+  rewrite seg_before_shift. destruct (seg_before s h); cbn [map]; [reflexivity|]. f_equal. exact IH.
+Qed.
+Lemma sort_shift d l : sort_segs (sh d l) = sh d (sort_segs l).
+Proof.
+  induction l as [|a l IH]; cbn [sh map sort_segs fold_right]; [reflexivity|].
+  fold (sh d l). fold (sort_segs (sh d l)). rewrite IH. apply insert_shift.
+Qed.
+
+Lemma eligibles_shift o d l : eligibles o (sh d l) = sh d (eligibles o l).
+Proof. unfold eligibles, sh. apply filter_map_comm. intros x. reflexivity. Qed.
+Lemma empties_shift d l : empties (sh d l) = sh d (empties l).
+Proof. unfold empties, sh. apply filter_map_comm. intros x. reflexivity. Qed.
+
+Lemma min_live_shift d l : min_live (sh d l) = min_live l.
+Proof.
+  unfold min_live, sh. generalize max_int64. induction l as [|a l IH]; intros m; cbn [map fold_left]; [reflexivity|].
+  cbn [shift seg_live]. apply IH.
+Qed.
+Lemma eligibles_live_shift o d l : eligibles_live o (sh d l) = eligibles_live o l.
+Proof.
+  unfold eligibles_live. rewrite eligibles_shift. unfold sh. generalize 0.
+  induction (eligibles o l) as [|a t IH]; intros z; cbn [map fold_left]; [reflexivity|].
+  cbn [shift seg_live]. apply IH.
+Qed.
+Lemma budget_of_shift o d l : budget_of o (sh d l) = budget_of o l.
+Proof. unfold budget_of, budget_args. rewrite eligibles_live_shift, min_live_shift. reflexivity. Qed.
+
+Lemma in_ids_shift d s l : in_ids (shift d s) (sh d l) = in_ids s l.
+Proof.
+  unfold in_ids, sh. induction l as [|a l IH]; cbn [map existsb]; [reflexivity|].
+  rewrite IH. f_equal. cbn [shift seg_id]. lia.
+Qed.
+Lemma remove_segs_shift d l r : remove_segs (sh d l) (sh d r) = sh d (remove_segs l r).
+Proof. unfold remove_segs. unfold sh at 1 3. apply filter_map_comm. intros x. fold (sh d r). rewrite in_ids_shift. reflexivity. Qed.
+
+Lemma build_roster_shift o d l : forall n size, build_roster o (sh d l) n size = sh d (build_roster o l n size).
+Proof.
+  induction l as [|e t IH]; intros n size; cbn [sh map build_roster]; [reflexivity|].
+  destruct (n <? o_per_task o); [|reflexivity]. cbn [shift seg_live].
+  destruct (wrap64f (size + seg_live e) <? o_max_size o); cbn [map]; fold (sh d t); rewrite IH; reflexivity.
+Qed.
+Lemma all_rosters_shift o d l : all_rosters o (sh d l) = map (sh d) (all_rosters o l).
+Proof.
+  induction l as [|e t IH]; cbn [sh map all_rosters]; [reflexivity|].
+  fold (sh d t). change (shift d e :: sh d t) with (sh d (e :: t)). rewrite build_roster_shift.
+  destruct (build_roster o (e :: t) 0 0) as [|x xs]; cbn [sh map]; rewrite IH; reflexivity.
+Qed.
+
+Section ShiftScore.
+Variable score : list seg -> Z.
+Variable d : Z.
+Hypothesis score_shift : forall r, score (sh d r) = score r.
+
+Definition shb (b : option (list seg * Z)) : option (list seg * Z) :=
+  match b with Some (r, sc) => Some (sh d r, sc) | None => None end.
+
+Lemma pick_best_shift rs : forall best,
+  pick_best score (map (sh d) rs) (shb best) = shb (pick_best score rs best).
+Proof.
+  induction rs as [|r rs IH]; intros best; cbn [map pick_best]; [reflexivity|].
+  rewrite score_shift. rewrite <- IH. f_equal.
+  destruct best as [[br bs]|]; cbn [shb]; [|reflexivity]. destruct (score r <? bs); reflexivity.
+Qed.
+Lemma best_roster_shift o l : best_roster score o (sh d l) = option_map (sh d) (best_roster score o l).
+Proof.
+  unfold best_roster. rewrite all_rosters_shift. change None with (shb None) at 1. rewrite pick_best_shift.
+  destruct (pick_best score (all_rosters o l) None) as [[r sc]|]; reflexivity.
+Qed.
+
+Lemma plan_loop_shift o budget : forall fuel elig n,
+  plan_loop fuel score o budget (sh d elig) n = rmap (map (sh d)) (plan_loop fuel score o budget elig n).
+Proof.
+  induction fuel as [|f IH]; intros elig n; rewrite !plan_loop_eq; unfold over_budget; rewrite sh_len.
+  - destruct ((0 <? zlen elig) && (budget <? zlen elig + n)); reflexivity.
+  - destruct ((0 <? zlen elig) && (budget <? zlen elig + n)); [|reflexivity].
+    rewrite best_roster_shift. destruct (best_roster score o elig) as [r|]; cbn [option_map]; [|reflexivity].
+    rewrite remove_segs_shift, IH.
+    destruct (plan_loop f score o budget (remove_segs elig r) (n + 1)); reflexivity.
+Qed.
+
+Lemma loop_start_shift o l :
+  loop_start o (sh d l) = (map (sh d) (fst (loop_start o l)), sh d (snd (loop_start o l))).
+Proof.
+  unfold loop_start. rewrite eligibles_shift, empties_shift.
+  destruct (empties (eligibles o l)) as [|e em] eqn:E; cbn [sh map fst snd]; [reflexivity|].
+  f_equal. change (shift d e :: map (shift d) em) with (sh d (e :: em)). fold (sh d (eligibles o l)).
+  apply remove_segs_shift.
+Qed.
+
+Lemma plan_with_shift o l :
+  plan_with score o (sh d l) = rmap (option_map (map (sh d))) (plan_with score o l).
+Proof.
+  rewrite !plan_with_unfold. rewrite sh_len. destruct (zlen l <=? 1); [reflexivity|].
+  rewrite sort_shift, budget_of_shift. destruct (budget_of o (sort_segs l)) as [b| | |]; cbn [rbind rmap]; try reflexivity.
+  unfold plan_sorted. rewrite loop_start_shift. destruct (loop_start o (sort_segs l)) as [tasks0 el']. cbn [fst snd].
+  rewrite sh_length. unfold zlen at 1. rewrite map_length. fold (zlen tasks0). rewrite plan_loop_shift.
+  destruct (plan_loop (S (length el')) score o b el' (zlen tasks0)) as [tl| | |]; cbn [rbind rmap]; try reflexivity.
+  cbn [option_map]. rewrite map_app. reflexivity.
+Qed.
+
+Definition sh_state (st : state) : state := (sh d (fst st), snd st + d).
+
+Lemma apply_task_shift st t : apply_task (sh_state st) (sh d t) = sh_state (apply_task st t).
+Proof.
+  destruct st as [segs next]. unfold sh_state. cbn [fst snd].
+  destruct t as [|x xs]; [reflexivity|].
+  change (sh d (x :: xs)) with (shift d x :: sh d xs). cbn [apply_task].
+  change (shift d x :: sh d xs) with (sh d (x :: xs)). set (t := x :: xs).
+  assert (Ek : filter (fun s => negb (seg_live s =? 0)) (sh d t) = sh d (filter (fun s => negb (seg_live s =? 0)) t))
+    by (unfold sh; apply filter_map_comm; intros y; reflexivity).
+  assert (Er : filter (fun s => 0 <? seg_live s) (remove_segs (sh d segs) (sh d t)) =
+               sh d (filter (fun s => 0 <? seg_live s) (remove_segs segs t)))
+    by (rewrite remove_segs_shift; unfold sh; apply filter_map_comm; intros y; reflexivity).
+  rewrite Ek, Er.
+  destruct (filter (fun s => negb (seg_live s =? 0)) t) as [|k ks] eqn:E; cbn [sh map fst snd].
+  - f_equal. lia.
+  - fold (sh d ks). change (shift d k :: sh d ks) with (sh d (k :: ks)). rewrite sh_sum_live.
+    unfold sh. rewrite map_app. cbn [map shift seg_id seg_full seg_live].
+    f_equal; [|lia]. f_equal. f_equal. unfold shift. cbn [seg_id seg_full seg_live]. f_equal. lia.
+Qed.
+
+Lemma apply_plan_shift ts : forall st, apply_plan (sh_state st) (map (sh d) ts) = sh_state (apply_plan st ts).
+Proof.
+  induction ts as [|t ts IH]; intros st; cbn [map apply_plan fold_left]; [reflexivity|].
+  rewrite apply_task_shift. apply IH.
+Qed.
+
+Lemma cycle_shift o st :
+  cycle score o (sh_state st) =
+  rmap (fun r => (option_map (map (sh d)) (fst r), sh_state (snd r))) (cycle score o st).
+Proof.
+  unfold cycle. cbn [sh_state fst]. rewrite plan_with_shift.
+  destruct (plan_with score o (fst st)) as [[ts|]| | |]; cbn [rbind rmap option_map fst snd]; try reflexivity.
+  rewrite <- apply_plan_shift. reflexivity.
+Qed.
+
+Lemma noop_task_shift t : noop_task (sh d t) = noop_task t.
+Proof. destruct t as [|s [|s' t']]; reflexivity. Qed.
+
+End ShiftScore.
+
+(* ================================================================= convergence refuted
+   A score, sane options (SegmentsPerMergeTask = 2) and three segments without deletions for
+   which every cycle plans three single-segment tasks and executing them gives the same sizes
+   again under fresh ids: the merger never reaches an empty plan. *)
+
+Definition rf_opts : options := mkopts 1 1000 2 2 0 0.
+Definition rf_score (r : list seg) : Z := sum_live r.
+Definition rf_state0 : state := ([mkseg 1 10 10; mkseg 2 10 10; mkseg 3 10 10], 3).
+Definition rf_tasks0 : list (list seg) := [[mkseg 3 10 10]; [mkseg 2 10 10]; [mkseg 1 10 10]].
+
+Lemma rf_score_shift d r : rf_score (sh d r) = rf_score r.
+Proof. apply sh_sum_live. Qed.
+
+Lemma sh_state_compose a b st : sh_state a (sh_state b st) = sh_state (b + a) st.
+Proof.
+  destruct st as [segs next]. unfold sh_state. cbn [fst snd]. f_equal; [|lia].
+  unfold sh. rewrite map_map. apply map_ext. intros s. unfold shift. cbn [seg_id seg_full seg_live]. f_equal. lia.
+Qed.
+
+Lemma rf_cycle0 : cycle rf_score rf_opts rf_state0 = Ok (Some rf_tasks0, sh_state 3 rf_state0).
+Proof. vm_compute. reflexivity. Qed.
+
+Lemma rf_cycle k :
+  cycle rf_score rf_opts (sh_state k rf_state0) = Ok (Some (map (sh k) rf_tasks0), sh_state (3 + k) rf_state0).
+Proof.
+  rewrite (cycle_shift rf_score k (rf_score_shift k)). rewrite rf_cycle0. cbn [rmap rbind fst snd option_map].
+  rewrite sh_state_compose. reflexivity.
+Qed.
+
+Lemma rf_iter : forall n k,
+  iter_cycles n rf_score rf_opts (sh_state k rf_state0) = Ok (sh_state (3 * Z.of_nat n + k) rf_state0).
+Proof.
+  induction n as [|n IH]; intros k.
+  - cbn [iter_cycles]. repeat f_equal.
+  - cbn [iter_cycles]. rewrite rf_cycle. cbn [rbind snd]. rewrite IH.
+    replace (3 * Z.of_nat n + (3 + k)) with (3 * Z.of_nat (S n) + k) by lia. reflexivity.
+Qed.
+
+Lemma sh_state_zero st : sh_state 0 st = st.
+Proof.
+  destruct st as [segs next]. unfold sh_state. cbn [fst snd]. f_equal; [|lia].
+  unfold sh. rewrite <- (map_id segs) at 2. apply map_ext. intros [i f l]. unfold shift. cbn. f_equal. lia.
+Qed.
+
+Theorem convergence_refuted_all :
+  exists (score : list seg -> Z) (o : options) (segs : list seg) (next : Z),
+    sane_options o /\ 2 <= o_per_task o /\ NoDup (ids segs) /\ Forall (fun s => seg_id s <= next) segs /\
+    forall n : nat, exists st ts st',
+      iter_cycles n score o (segs, next) = Ok st /\
+      cycle score o st = Ok (Some ts, st') /\
+      ts <> [] /\ forallb noop_task ts = true /\ sizes (fst st') = sizes segs.
+Proof.
+  exists rf_score, rf_opts, (fst rf_state0), (snd rf_state0).
+  split; [unfold sane_options; vm_compute; repeat split; intros; discriminate|].
+  split; [vm_compute; intros; discriminate|].
+  split; [cbn; repeat constructor; cbn; intuition lia|].
+  split; [repeat constructor; cbn; lia|].
+  intros n.
+  exists (sh_state (3 * Z.of_nat n + 0) rf_state0), (map (sh (3 * Z.of_nat n + 0)) rf_tasks0),
+         (sh_state (3 + (3 * Z.of_nat n + 0)) rf_state0).
+  split.
+  - change (fst rf_state0, snd rf_state0) with rf_state0. rewrite <- (sh_state_zero rf_state0) at 1. apply rf_iter.
+  - split; [apply rf_cycle|]. split; [discriminate|]. split; [reflexivity|].
+    unfold sh_state. cbn [fst]. apply sh_sizes.
+Qed.
+
+(* ================================================================= examples *)
+
+(* a stand-in for the default score with integer values: share of the first (largest) segment
+   in the roster, lower is better *)
+Definition ex_score (r : list seg) : Z :=
+  match r with [] => 0 | s :: _ => seg_live s * 1000 / sum_live r end.
+Definition ex_opts : options := mkopts 2 1000 2 3 10 2.
+Definition ex_segs : list seg :=
+  [mkseg 1 700 600; mkseg 2 40 40; mkseg 3 50 0; mkseg 4 45 30; mkseg 5 20 20; mkseg 6 20 20;
+   mkseg 7 400 300; mkseg 8 500 500; mkseg 9 15 15; mkseg 10 300 120; mkseg 11 0 0; mkseg 12 90 70;
+   mkseg 13 25 22; mkseg 14 12 12; mkseg 15 11 11; mkseg 16 13 13; mkseg 17 14 14; mkseg 18 10 10;
+   mkseg 19 10 10].
+
+(* 19 segments, budget 11: the empties task and three rosters; every hypothesis of the
+   theorems above holds of this instance *)
+Example plan_example :
+  sane_options ex_opts /\ NoDup (ids ex_segs) /\
+  budget_of ex_opts (sort_segs ex_segs) = Ok 11 /\
+  option_map (map ids) (match plan ex_score (Some ex_opts) ex_segs with Ok p => p | _ => None end)
+  = Some [[3; 11]; [13; 5; 6]; [15; 18; 19]; [9; 17; 16]].
+Proof.
+  split; [unfold sane_options; vm_compute; repeat split; intros; discriminate|].
+  split; [cbn; repeat constructor; cbn; intuition lia|].
+  split; vm_compute; reflexivity.
+Qed.
+
+(* the same segments in reverse order give the same plan *)
+Example plan_deterministic_example :
+  Permutation ex_segs (rev ex_segs) /\ plan ex_score (Some ex_opts) (rev ex_segs) = plan ex_score (Some ex_opts) ex_segs.
+Proof. split; [apply Permutation_rev|vm_compute; reflexivity]. Qed.
+
+(* executing that plan: 19 segments, 7 with deletions (measure 26) become 11 segments, 5 with
+   deletions (measure 16); no task is a no-op; the next plan is empty and the 9 mergeable
+   segments are within the new budget 10 *)
+Example apply_progress_example :
+  match plan_with ex_score ex_opts ex_segs with
+  | Ok (Some ts) =>
+      ts <> [] /\ existsb noop_task ts = false /\ measure ex_segs = 26 /\
+      measure (fst (apply_plan (ex_segs, 19) ts)) = 16
+  | _ => False
+  end.
+Proof. vm_compute. repeat split; try reflexivity; discriminate. Qed.
+
+Example convergence_example :
+  match run_cycles 26 ex_score ex_opts (ex_segs, 19) with
+  | Quiescent st =>
+      zlen (fst st) = 11 /\ zlen (eligibles ex_opts (fst st)) = 9 /\
+      budget_of ex_opts (sort_segs (fst st)) = Ok 10
+  | _ => False
+  end.
+Proof. vm_compute. repeat split; reflexivity. Qed.
+
+(* a plan with a no-op task under sane options with SegmentsPerMergeTask = 3: the last roster
+   (one segment without deletions) has the best score *)
+Example noop_task_example :
+  let o := mkopts 1 1000 4 3 10 2 in
+  let l := [mkseg 1 700 600; mkseg 2 40 40; mkseg 3 50 0; mkseg 4 45 30; mkseg 5 20 20; mkseg 6 20 20;
+            mkseg 7 499 499; mkseg 8 500 500; mkseg 9 15 15; mkseg 10 300 120; mkseg 11 0 0;
+            mkseg 12 90 70; mkseg 13 25 22; mkseg 14 12 12] in
+  option_map (map ids) (match plan ex_score (Some o) l with Ok p => p | _ => None end)
+  = Some [[3; 11]; [13; 5; 6]; [2; 4; 9]; [10; 12; 14]; [7]] /\
+  noop_task [mkseg 7 499 499] = true.
+Proof. vm_compute. split; reflexivity. Qed.
+
+(* the default options on a concrete list: 30 segments of 1000..1029 documents are over the
+   default budget (the floor 2000 is the first tier: budget 11) and are merged ten at a time *)
+Definition ex_default_segs : list seg :=
+  map (fun i => mkseg i (1000 + i) (1000 + i)) (map Z.of_nat (seq 0 30)).
+Example default_budget_example :
+  budget_of default_options (sort_segs ex_default_segs) = Ok 11 /\
+  option_map (map (fun t => zlen t)) (match plan ex_score None ex_default_segs with Ok p => p | _ => None end)
+  = Some [10; 10; 10].
+Proof. vm_compute. split; reflexivity. Qed.
+
+(* ================================================================= histories with arrivals
+   The total number of useful (non no-op) tasks the merger executes over any history is at most
+   measure(initial) + 2 * #arrivals + #deletions: merging work is linear in what arrives. *)
+
+Lemma delete_in_ids i d l : ids (delete_in i d l) = ids l.
+Proof.
+  unfold ids, delete_in. rewrite map_map. apply map_ext. intros s. destruct (seg_id s =? i); reflexivity.
+Qed.
+Lemma delete_in_absent i d l : ~ In i (ids l) -> delete_in i d l = l.
+Proof.
+  unfold delete_in. induction l as [|s l IH]; intros H; cbn [map]; [reflexivity|].
+  cbn [ids map] in H. destruct (seg_id s =? i) eqn:E; [exfalso; apply H; left; lia|].
+  f_equal. apply IH. intros Hin. apply H. right. exact Hin.
+Qed.
+Lemma delete_in_wsum i d l : NoDup (ids l) -> wsum (delete_in i d l) <= wsum l + 1.
+Proof.
+  induction l as [|s l IH]; intros Hnd; [unfold wsum; cbn; lia|].
+  cbn [ids map] in Hnd. inversion Hnd as [|? ? Hnot Hnd']; subst.
+  unfold delete_in. cbn [map]. fold (delete_in i d l). unfold wsum. cbn [fold_right]. fold (wsum (delete_in i d l)). fold (wsum l).
+  destruct (seg_id s =? i) eqn:E.
+  - assert (i = seg_id s) by lia. subst i. rewrite (delete_in_absent _ d l Hnot).
+    pose proof (weight_pos s). pose proof (weight_pos (mkseg (seg_id s) (seg_full s) (seg_live s - d))). lia.
+  - specialize (IH Hnd'). lia.
+Qed.
+
+Lemma wsum_snoc l s : wsum (l ++ [s]) = wsum l + weight s.
+Proof. rewrite wsum_app. unfold wsum at 2. cbn [fold_right]. lia. Qed.
+Lemma arrivals_cons e h : arrivals (e :: h) = arrivals h + match e with EArrive _ _ => 1 | _ => 0 end.
+Proof. unfold arrivals. cbn [filter]. destruct e; [rewrite zlen_cons|..]; lia. Qed.
+Lemma deletions_cons e h : deletions (e :: h) = deletions h + match e with EDelete _ _ => 1 | _ => 0 end.
+Proof. unfold deletions. cbn [filter]. destruct e; [|rewrite zlen_cons|]; lia. Qed.
+
+Section History.
+Variable score : list seg -> Z.
+
+Theorem history_work_bound_all o : forall h st work st' w,
+  wf_state st ->
+  run_history score o h st work = Ok (st', w) ->
+  wf_state st' /\ w + measure (fst st') <= work + measure (fst st) + 2 * arrivals h + deletions h.
+Proof.
+  induction h as [|e h IH]; intros st work st' w Hwf Hr.
+  - cbn [run_history] in Hr. inversion Hr; subst. split; [exact Hwf|]. unfold arrivals, deletions, zlen. cbn [filter length]. lia.
+  - destruct st as [segs next]. destruct Hwf as [Hnd Hle]. cbn [fst snd] in *.
+    destruct e as [f l|i d|]; cbn [run_history fst snd] in Hr.
+    + (* arrival *)
+      assert (Hwf' : wf_state (segs ++ [mkseg (next + 1) f l], next + 1)).
+      { split; cbn [fst snd].
+        - rewrite ids_app. apply NoDup_app_intro; [exact Hnd|constructor; [intros []|constructor]|].
+          intros x Hx [<-|[]]. cbn [seg_id] in Hx. unfold ids in Hx. apply in_map_iff in Hx. destruct Hx as [s [E Hs]].
+          rewrite Forall_forall in Hle. specialize (Hle s Hs). cbn beta in Hle. lia.
+        - apply Forall_app. split; [eapply Forall_impl; [|exact Hle]; intros; cbn beta in *; lia|].
+          constructor; [cbn [seg_id]; lia|constructor]. }
+      destruct (IH _ _ _ _ Hwf' Hr) as [Hw Hb]. split; [exact Hw|]. cbn [fst] in Hb.
+      rewrite !measure_wsum in *. rewrite wsum_snoc in Hb.
+      pose proof (weight_pos (mkseg (next + 1) f l)).
+      rewrite arrivals_cons, deletions_cons. lia.
+    + (* deletion *)
+      assert (Hwf' : wf_state (delete_in i d segs, next)).
+      { split; cbn [fst snd]; [rewrite delete_in_ids; exact Hnd|].
+        unfold delete_in. rewrite Forall_map. eapply Forall_impl; [|exact Hle]. intros s Hs. cbn beta in *.
+        destruct (seg_id s =? i); cbn [seg_id]; exact Hs. }
+      destruct (IH _ _ _ _ Hwf' Hr) as [Hw Hb]. split; [exact Hw|]. cbn [fst] in Hb.
+      rewrite !measure_wsum in *. pose proof (delete_in_wsum i d segs Hnd).
+      rewrite arrivals_cons, deletions_cons. lia.
+    + (* a merger cycle *)
+      unfold cycle in Hr. cbn [fst] in Hr.
+      destruct (plan_with_terminates score o segs) as [p Hp]. rewrite Hp in Hr. cbn [rbind] in Hr.
+      destruct p as [ts|]; cbn [rbind fst snd] in Hr.
+      * pose proof (plan_applicable score o segs ts Hnd Hp) as Happ.
+        destruct (apply_plan_measure ts segs next (conj Hnd Hle) Happ) as [Hwf' Hm].
+        destruct (IH _ _ _ _ Hwf' Hr) as [Hw Hb]. split; [exact Hw|].
+        rewrite !measure_wsum in *. unfold useful_tasks in Hb.
+        rewrite arrivals_cons, deletions_cons. lia.
+      * destruct (IH (segs, next) _ _ _ (conj Hnd Hle) Hr) as [Hw Hb]. split; [exact Hw|].
+        rewrite arrivals_cons, deletions_cons. cbn [fst] in *. lia.
+Qed.
+
+End History.
+
+(* 4 arrivals, 1 deletion and 3 cycles from the example state: 5 useful tasks, measure 26 -> 18,
+   bound 26 + 2*4 + 1 *)
+Example history_example :
+  match run_history ex_score ex_opts
+          [EArrive 30 30; ECycle; EArrive 12 12; EDelete 8 100; EArrive 9 9; ECycle; EArrive 11 11; ECycle]
+          (ex_segs, 19) 0 with
+  | Ok (st, w) => w = 5 /\ measure (fst st) = 18 /\ w + measure (fst st) <= 0 + measure ex_segs + 2 * 4 + 1
+  | _ => False
+  end.
+Proof. vm_compute. repeat split; try reflexivity; discriminate. Qed.
